@@ -16,6 +16,8 @@ import GoblVerif.Generated.CalcFacts
 import GoblVerif.Proofs.CalcTax
 import GoblVerif.Proofs.CalcGroups
 import GoblVerif.Proofs.CalcSummary
+import GoblVerif.Generated.TaxTotalsSrc
+import GoblVerif.Proofs.TaxTotalsSrc
 
 namespace GoblVerif.Props.C02
 open GoblVerif GoblVerif.Calc GoblVerif.Spec.C02
@@ -292,6 +294,100 @@ example : ((calculate exactOps readdExample).toOption.map (summaryOk { readdExam
     (calculate exactOps readdExample).toOption.map (fun o => summaryOk readdExample
       { o with totals := o.totals.map (fun t => { t with tax := ⟨t.tax.value + 1, 2⟩ }) })) =
     (some false, some false) := by decide +kernel
+
+/-! ## the model and the source (`namespace Src`)
+
+`Generated/TaxTotalsSrc.lean` is the translation (go2lean) of /repo/tax/totals.go
+as it stands now.  Its structs are mapped onto the records of Model/Merge.lean
+and `TaxTotals.Combo`; `toCalcRT` / `toCalcCat` / `toCalcCombo`
+(Proofs/TaxTotalsSrc.lean) carry them to the records of Model/Calc.lean, whose
+extension field is the canonical TEXT of the map (`enc`, any injective
+encoding).  The `num` calls are the fields of `TaxTotals.NumOps`, read here with
+`calcOps o` — the operations of Model/Calc.lean over ANY rounding primitives `o`
+(`exactOps` in the theorems above, `floatOps` in the driver).
+
+Proved for all arguments: `matches` (the rate-group key), `newRateTotal`,
+`newCategoryTotal`, `matchRoundingPrecision`, `PreciseAmount`, `PreciseSum`,
+`Category`.  Translated and pinned (`translated_as_listed` in Props/C20), but
+NOT yet related to `addToCats` / `catAmounts` / `finalSum` / `roundTax`:
+`rateTotalFor`, `calculateBaseCategoryTotal`, `calculateFinalSum`, `round`
+(write-back loops over two list levels); their shape pins in `ExpectCalc` stay,
+and so do the pins of the functions proved here (they are weaker, and cheap). -/
+namespace Src
+open GoblVerif.Generated GoblVerif.TaxTotals GoblVerif.Proofs.TaxTotalsSrc
+
+private def sampleEnc (e : List (String × String)) : String := String.join (e.map fun p => p.1 ++ "=" ++ p.2 ++ ";")
+private def sampleRT : Merge.RateTotal :=
+  { key := "k", country := "", ext := [("a", "1")], base := ⟨0, 2⟩, percent := some ⟨⟨210, 3⟩⟩,
+    surcharge := some ⟨⟨⟨52, 3⟩⟩, ⟨0, 2⟩⟩, amount := ⟨0, 2⟩ }
+private def sampleCB : TaxTotals.Combo :=
+  { category := "VAT", country := "", rate := "other", percent := some ⟨⟨21, 2⟩⟩, surcharge := some ⟨⟨520, 4⟩⟩,
+    ext := [("a", "1")], retained := false }
+
+theorem all_translated : TaxTotalsSrc.untranslated = [] := by decide
+
+/-- the reading of the primitives this file uses is the one Model/Calc.lean is written with -/
+theorem calc_reading (o : Ops) (a b : Amount) (p q : Pct) (e : ℕ) :
+    @NumOps.add (calcOps o) a b = add o a b ∧ @NumOps.sub (calcOps o) a b = sub o a b ∧
+    @NumOps.rescale (calcOps o) a e = o.rescale a e ∧ @NumOps.matchPrecision (calcOps o) a b = up a b.exp ∧
+    @NumOps.pctOf (calcOps o) p a = pctOf o p a ∧ @NumOps.pctEquals (calcOps o) p q = pctEq p q ∧
+    @NumOps.isZero (calcOps o) a = (a.value == 0) :=
+  ⟨rfl, rfl, rfl, rfl, rfl, rfl, rfl⟩
+
+/-- **the regenerated `(*RateTotal).matches` is `rtMatches`**: for every rate
+    group, every combo and every rounding primitives, under any encoding of the
+    extension maps that tells the two maps at hand apart (an injective one does) -/
+theorem src_matches (o : Ops) (enc : List (String × String) → String)
+    (rt : Merge.RateTotal) (c : TaxTotals.Combo) (henc : enc rt.ext = enc c.ext → rt.ext = c.ext) :
+    @TaxTotalsSrc.RateTotal_matches (calcOps o) rt c = rtMatches (toCalcRT enc rt) (toCalcCombo enc c) :=
+  matches_calc o enc rt c henc
+
+/-- … hence the regenerated `matches` decides "same rate-group key" (`matches_iff_same_key`) -/
+theorem spec_of_the_source_matches (o : Ops) (enc : List (String × String) → String)
+    (rt : Merge.RateTotal) (c : TaxTotals.Combo) (henc : enc rt.ext = enc c.ext → rt.ext = c.ext) :
+    @TaxTotalsSrc.RateTotal_matches (calcOps o) rt c = true ↔ rtKey (toCalcRT enc rt) = comboKey (toCalcCombo enc c) := by
+  rw [src_matches o enc rt c henc]; exact matches_iff_same_key _ _
+
+/-- the hypothesis is satisfiable, with equal and with different maps; 21.0% with surcharge 5.2% matches 21% with 5.20% -/
+example : (sampleEnc sampleRT.ext = sampleEnc sampleCB.ext → sampleRT.ext = sampleCB.ext) ∧
+    (sampleEnc sampleRT.ext = sampleEnc [("a", "2")] → sampleRT.ext = [("a", "2")]) ∧
+    rtMatches (toCalcRT sampleEnc sampleRT) (toCalcCombo sampleEnc sampleCB) = true := by
+  refine ⟨fun _ => rfl, fun h => absurd h (by decide), by decide +kernel⟩
+
+/-- **the regenerated `newRateTotal` is `newRate`** (at the currency's zero `⟨0, c⟩`) -/
+theorem src_newRateTotal (enc : List (String × String) → String) (cb : TaxTotals.Combo) (c : ℕ) :
+    (TaxTotalsSrc.newRateTotal cb ⟨0, c⟩).map (toCalcRT enc) = some (newRate c (toCalcCombo enc cb)) := by
+  rw [newRateTotal_eq]
+  rcases cb with ⟨cat, cn, r, p, s, e, ret⟩
+  cases s <;> rfl
+
+/-- **the regenerated `newCategoryTotal`** is the empty category `addToCats` opens -/
+theorem src_newCategoryTotal (enc : List (String × String) → String) (cb : TaxTotals.Combo) (c : ℕ) :
+    (TaxTotalsSrc.newCategoryTotal cb ⟨0, c⟩).map (toCalcCat enc) =
+      some { code := (toCalcCombo enc cb).cat, retained := (toCalcCombo enc cb).retained, rates := [],
+             amount := ⟨0, c⟩, surcharge := none, precise := ⟨0, c⟩ } := by
+  rw [newCategoryTotal_eq]; rfl
+
+/-- **the regenerated `matchRoundingPrecision` is `mrp`**: only the key `currency` keeps the precision -/
+theorem src_matchRoundingPrecision (o : Ops) (rr : String) (a b : Amount) :
+    @TaxTotalsSrc.matchRoundingPrecision (calcOps o) rr a b = mrp (ruleOf rr) a b := mrp_calc o rr a b
+
+example : ruleOf "currency" = .currency ∧ ruleOf "precise" = .precise ∧ ruleOf "" = .precise := by decide
+
+/-- **the regenerated `PreciseAmount` / `PreciseSum`** are the model's -/
+theorem src_PreciseAmount (o : Ops) (enc : List (String × String) → String) (ct : Merge.CategoryTotal) :
+    @TaxTotalsSrc.CategoryTotal_PreciseAmount (calcOps o) ct = (toCalcCat enc ct).preciseAmount := by
+  rw [preciseAmount_eq]; rfl
+
+theorem src_PreciseSum (o : Ops) (enc : List (String × String) → String) (t : Merge.Total) :
+    @TaxTotalsSrc.Total_PreciseSum (calcOps o) t = (toCalcTotal enc t).precise := by
+  rw [preciseSum_eq]; rfl
+
+/-- **the regenerated `Total.Category`** returns the first category with the code -/
+theorem src_Category (t : Merge.Total) (code : String) :
+    TaxTotalsSrc.Total_Category t code = t.categories.find? (fun ct => ct.code == code) := category_eq t code
+
+end Src
 
 /-! ## pinned source shapes (regenerated facts; tools/pin_calc_expect.py) -/
 
